@@ -24,6 +24,46 @@ CLAIMED = {
    text="TLC explores create/write/delete/re-create/open-existing/drop-handle/reopen over 2 names with journal records of deleted keyspaces still present, checking DurableMatchesMemory, DeletedNameAbsent, FilesGone, NoResurrection, ViewEqRef per name; the id counter and the meta keyspace (seqno-ordered name rows and tombstones) are modelled as the code computes them. Behaviours are replayed on the real code comparing names, keyspace_exists, Keyspace::id, content of every keyspace after every step.",
    note="bounded model (2 names, ids<=4); crash points inside create/delete are covered by the C02 check",
    technique="TLA+ spec (keyspace lifecycle + meta keyspace) + TLC + replay"),
+ "C02": dict(engine="journal-spec", design="6/C02",
+   text="TLC checks CrashRecoversAcked on FjallJournal (every step of the writers' critical sections, 2 threads, single writes / clears / batches, persist calls) and CrashSafe on FjallStore (recovery from the durable state equals the reference content in every reachable state incl. journal rotation, eviction, clear, flush). On the implementation, TLC-chosen behaviours (writes, batches, clears, ingestion, keyspace create/delete, rotation, flush, compaction, forced journal rotation and eviction, reopen) are executed under a syscall-level adversary that takes an image of the database directory before EVERY file-mutating call and at 3 split points of every journal write; every image is opened by the real recovery code and must equal the specification's state before or after the step in flight (one prefix for all keyspaces), and recovery must succeed.",
+   note="process-crash model (page cache survives, prefix-torn writes); single-threaded workloads; file creation through open(2) is not intercepted (coarsens the grid, cannot produce a wrong verdict); known findings D11 (crash during first-time creation) and D1D2 are reported as such",
+   technique="TLA+ specs (FjallJournal, FjallStore CrashSafe) + TLC + crash-image enumeration at every syscall of replayed behaviours"),
+ "C03": dict(engine="journal-format-spec", design="6/C03",
+   text="JournalFormat models the journal as cells and the reader as the transcription of Entry::decode_from / JournalReader / JournalBatchReader; TLC checks TornTailAtomic and AppendRecoverable for every cut cell of every layout (EOF and zero-padded, torn multi-byte fields reading as smaller numbers). Real journals written through the API for 8 layouts x both compression settings are cut at every byte offset of the final batch (every 5th in quick), with and without zero padding; each is reopened, must equal the complete earlier batches, the file must be truncated to their end, and an insert appended afterwards must be recovered by a second reopen. Split points of journal write() calls are covered by the crash images of the corpus behaviours.",
+   note="prefix-torn model (no sector reordering); layouts: small / empty / compressed / large incompressible values, tombstone, clear, 2-keyspace batches",
+   technique="TLA+ spec (JournalFormat) + TLC + byte-level cut campaign on real journal files"),
+ "C05": dict(engine="store-spec", design="6/C05",
+   text="TLC checks ViewsFrozen (point read and scan of every live view equal its content at creation), WatermarkBelowLive and version availability on FjallStore with 2-3 views against writes, clear, ingestion, rotation (pullup+gc), flush, compaction, version-history maintenance; FjallTx checks LiveSnapshotProtected (tracker counts through begin/commit/conflict/rollback of write transactions opened at the same instant). Replay: every live snapshot is re-read completely (all Readable methods) after every step of TLC-chosen behaviours, iterators created together with a view are consumed only when the view closes and must still show the old state; transaction replay checks the tracker count after every step.",
+   note="sequential interleavings of view lifetimes with every maintenance step (objects interleaved on one thread realise every logical schedule of the model); true thread schedules are covered by the C14/C06 trace validation",
+   technique="TLA+ specs (FjallStore views + tracker, FjallTx tracker) + TLC + replay with frozen-content comparison"),
+ "C07": dict(engine="tx-spec", design="6/C07",
+   text="FjallTx models optimistic transactions with the read footprint the code records per method; TLC checks Serializable (every observation of a committing transaction re-evaluated at its commit point), NoEffectUnlessCommitted, PruneKeepsNeeded, LiveSnapshotProtected exhaustively for 2 transactions x <=2-3 operations over all methods and 3 transactions with tracker gc / pruning / version upgrades. TLC-simulated behaviours are replayed on OptimisticTxDatabase (several WriteTransaction objects alive on one thread): every read result, every commit outcome (Ok/Conflict) and the committed content after each commit are compared.",
+   note="method classes by footprint (get/contains_key, size_of, iter/len/is_empty/first/last, range/prefix, insert/remove, take/fetch_update/update_fetch); commit atomicity across threads rests on the oracle mutex, whose critical section is validated by the multi-threaded traces",
+   technique="TLA+ spec (FjallTx) + TLC exhaustive + transaction replay"),
+ "C08": dict(engine="tx-spec", design="6/C08",
+   text="FjallTx defines in-transaction reads as own-writes-over-snapshot (TxVal), commit as the final write per key in one batch, rollback/conflict as no effect, and the single-writer mutex; TLC checks CommitIsFinalWrites, NoEffectUnlessCommitted, SingleWriterExclusion. Replay of TLC-simulated programs (<=5 operations, commit/rollback endings) on both SingleWriterTxDatabase and OptimisticTxDatabase compares every read (get, contains_key, size_of, iter, range, prefix, len, is_empty, first/last, reverse iteration), fetch_update/update_fetch return values, and the content seen by an outside reader and snapshot after each commit.",
+   note="one keyspace per behaviour in the replay; lost-update freedom under thread schedules rests on the writer mutex (SingleWriterExclusion) ",
+   technique="TLA+ spec (FjallTx) + TLC + transaction replay on both transactional databases"),
+ "C09": dict(engine="journal-spec", design="6/C09",
+   text="TLC checks PowerLossKeepsDurable and CrashKeepsBuffered on FjallJournal (persist of every mode interleaved with 2 writers, with and without manual journal persist). On the implementation the adversary records fsync/fdatasync per journal file; for every mutating call of TLC-chosen behaviours with persist steps a power-loss image (journal bytes not covered by a sync discarded) is reopened: no value acknowledged before the last sync point (persist(SyncData|SyncAll), journal rotation, drop) may be lost. With manual journal persist, process-crash images must contain everything before the last persist of any mode.",
+   note="power loss discards unsynced JOURNAL bytes (as the property says); table/manifest durability relies on lsm-tree's own fsyncs",
+   technique="TLA+ spec (FjallJournal) + TLC + power-loss image enumeration"),
+ "C10": dict(engine="store-spec", design="6/C10",
+   text="TLC checks CrashSafe in every state (in particular right after every eviction), JournalsConsistent (oldest first, manager tracks exactly the sealed files) and AllFlushedOneJournal on FjallStore with journal rotation, watermarks captured from memtables, eviction, clear, keyspace deletion, reopen with re-registration of sealed journals. Behaviours with forced journal rotations are replayed; journal_count(), the *.jnl files on disk and the flush queue are compared after every step; crash images after every unlink are part of the C02 check.",
+   note="rotation forced through a verif knob (threshold literal 64 MB); known finding D15 (journal pinned by a cleared keyspace)",
+   technique="TLA+ spec (FjallStore journal manager) + TLC + replay with forced rotations"),
+ "C13": dict(engine="journal-spec", design="6/C13",
+   text="TLC checks FailStop, CrashRecoversAcked, AckedBeforeFaultRecovered on FjallJournal with an injected failure at any append / flush / sync of any operation kind and 2 writer threads. On the implementation: for every journal call n of TLC-chosen behaviours and each of EIO, ENOSPC, short-write+EIO: the call in flight must fail, every later insert/remove/clear/batch/persist must be refused, the drop must return, and a fault-free reopen must yield the acknowledged state (or the failed call as a whole). Multi-threaded runs with one fault are recorded through the critical-section hooks and validated against FjallJournal (Journal_Trace): an acknowledgement after a failure is rejected.",
+   note="faults on journal files only; binding self-test (trace with one event removed must be rejected) on every run",
+   technique="TLA+ spec (FjallJournal) + TLC + fault enumeration + trace validation of hook traces"),
+ "C15": dict(engine="journal-format-spec", design="6/C15",
+   text="JournalFormat: DamageNeverReadAsData for every single-cell alteration of every layout (the checksum covers exactly what the code hashes). Every byte of real journals (8 layouts x 2 compression settings) is altered (xor 1, xor 0x80, 0, 0xff, all tag/type values); opening must fail or yield a prefix state; the per-field outcome table of the implementation must be explained by the model's. Round trip: TLC-chosen behaviours are replayed with values of every length class (empty, around the compression threshold, 64 KiB) and compressibility, compared byte for byte after reopen, with the journal compression setting flipped at every reopen.",
+   note="round trip over ALL byte strings is sampled per class, not decided; known finding D10 (Start.seqno not covered by the checksum)",
+   technique="TLA+ spec (JournalFormat) + TLC + byte-alteration campaign + outcome-table conformance"),
+ "C18": dict(engine="store-spec", design="6/C18",
+   text="FjallStore with filter assignment by name and a deterministic key-based filter (Remove / ReplaceValue / Keep) applied by compactions: TLC checks FilteredFormOnly, AssignedIffAssigner (also after reopen), FilteredIsSticky (action property), and ViewEqRef for unfiltered keyspaces. Replay with a real compaction filter factory installed through the builder: filtered keyspaces must show original or filtered form (sticky once observed), the exact model state after a major compaction, unfiltered keyspaces the reference map.",
+   note="non-major compaction choices are the strategy's; the replay accepts either form there",
+   technique="TLA+ spec (FjallStore filters) + TLC + replay with a real filter factory"),
 }
 
 REASON_PENDING = "check under construction in this session (specification module and conformance harness not yet bound); will be claimed once it runs green"
@@ -60,6 +100,12 @@ m = {
  "engines": [
    {"name": "store-spec", "path": "spec/FjallStore.tla", "serves_properties": ["C01", "C04", "C11", "C12", "C10", "C16", "C18", "C05"],
     "kind_free_text": "TLA+ specification of keyspaces/LSM structure/journal/recovery; MC_Store*.cfg bounded instances; MC_StoreSim (behaviour generation); Store_Trace (per-step evaluation / trace validation)"},
+   {"name": "journal-spec", "path": "spec/FjallJournal.tla", "serves_properties": ["C02", "C03", "C09", "C13"],
+    "kind_free_text": "TLA+ specification of the writers' critical section, journal frames (buffer/OS/device), persist, poison, crash and power loss; MC_Journal_*.cfg; Journal_Trace (trace validation of hook traces)"},
+   {"name": "journal-format-spec", "path": "spec/JournalFormat.tla", "serves_properties": ["C03", "C15"],
+    "kind_free_text": "TLA+ specification of the journal file format at cell granularity and of the reader state machine; MC_JF_*.cfg"},
+   {"name": "tx-spec", "path": "spec/FjallTx.tla", "serves_properties": ["C07", "C08", "C05"],
+    "kind_free_text": "TLA+ specification of optimistic (SSI) and single-writer transactions; MC_Tx_*.cfg; MC_TxSim (behaviour generation)"},
    {"name": "harness", "path": "harness/", "serves_properties": [p["id"] for p in props],
     "kind_free_text": "Rust conformance harness (path dependency on /repo, built with --cfg fjall_verif): replays specification behaviours on the real database and projects its state"},
  ],
